@@ -278,6 +278,12 @@ def _exec_result(plan, res, log, pid, mode):
                 do_update(objs[op["acc"]], tname, op["obs"])
                 model[op["acc"]].append(op["obs"])
                 dst = op["acc"]
+            elif kind == "roundtrip":
+                if op["acc"] not in objs:
+                    continue
+                objs[op["acc"]] = Result.from_dict(copy.deepcopy(objs[op["acc"]].to_dict()))
+                dst = op["acc"]
+                bump(res["probes"], "result_recreated_from_its_dictionary_form")
             elif kind == "merge":
                 if op["dst"] not in objs or op["src"] not in objs or op["dst"] == op["src"]:
                     continue
